@@ -32,6 +32,8 @@ From RX.Spec Require Cst CstNs CstU CstFull.
 From RX.Proofs Require Import ScopeProofs ScopeParse CstNsView CstNsMain CstFullMain CstFullS1 CstFullS2 CstFullS3 NsRejDefs NsRejBuild NsRejMain.
 From RX.Spec Require CstFullS4 CstFullS6.
 From RX.Proofs Require CstFullS4Main CstFullS6Main CstFullRejSem CstFullRejTrace CstFullRejDoc CstFullRejMain CstFullNsRejMain.
+From RX.Spec Require CstFullS11.
+From RX.Proofs Require CstFullS11Main CstFullRejS11Sem CstFullRejS11Doc CstFullRejS11Main CstFullRejS11NsMain NsRejDefs NsRejBuild.
 Open Scope N_scope.
 
 (* ---- Proofs/ScopeParse.v ---- *)
@@ -289,8 +291,36 @@ Print Assumptions C06_ns_violation_variant.
 
 End G7.
 
-(* ---- Proofs/CstFullNsRejMain.v ---- *)
+(* ---- Proofs/CstFullRejS11NsMain.v ---- *)
 Module G8.
+Import RX.Spec.CstFull. Import RX.Spec.CstFullS4. Import RX.Spec.CstFullS6. Import RX.Spec.CstFullS11. Import RX.Proofs.CstNsView. Import RX.Proofs.CstFullS11Main. Import RX.Proofs.NsRejDefs. Import RX.Proofs.NsRejBuild. Import RX.Proofs.CstFullRejSem. Import RX.Proofs.CstFullRejS11Sem. Import RX.Proofs.CstFullRejTrace. Import RX.Proofs.CstFullRejS11Doc. Import RX.Proofs.CstFullRejMain. Import RX.Proofs.CstFullRejS11Main. Import RX.Proofs.CstFullNsRejMain. Import RX.Proofs.CstFullRejS11NsMain.
+Theorem C06_decide_full_s11 :
+  forall (d : S6.doc) (opt : options) (cT : CstFull.doc bpieces) (tr : list Detector.lop),
+  wf_syntax11 d = true -> ginline6 d = Some (cT, tr) ->
+  provisos_item (d_root cT) = true ->
+  attrs_named_ok cT = true ->
+  (S6.has_dtd d = true -> allow_dtd opt = true) ->
+  N.of_nat (length (usem6 d cT)) < nodes_limit opt ->
+  N.of_nat (length (usem6 d cT)) < u32_max ->
+  N.of_nat (vattrs (usem6 d cT)) < u32_max ->
+  CstFull.distinct_decls_le bmeaning cT (N.to_nat 65535) ->
+  1 + N.of_nat (CstFull.ns_cost bmeaning cT) <= u32_max ->
+  match Detector.within_limits 10 255 0 0 tr, forallb (ns_ok []) (den bmeaning (d_root cT)) with
+  | true, true =>                                                   (* (a) accepted, with the meaning of the unfolding *)
+    exists x, parse (S6.render d) opt = Ok x /\ view (S6.render d) x = Some (usem6 d cT) /\ S11.wf_doc d = true /\ S6.sem d = usem6 d cT
+  | false, true =>                                                  (* (b) the detector stops *)
+    exists pos, parse (S6.render d) opt = Err (EntityReferenceLoop pos)
+  | true, false =>                                                  (* (c) the first violated namespace rule *)
+    exists rl e, first_violation6 cT = Some rl /\ parse (S6.render d) opt = Err e /\ rule_error rl e = true /\ is_ns_error e = true
+  | false, false => True
+  end.
+Proof. exact decide_full_s11. Qed.
+Print Assumptions C06_decide_full_s11.
+
+End G8.
+
+(* ---- Proofs/CstFullNsRejMain.v ---- *)
+Module G9.
 Import RX.Spec.CstFull. Import RX.Spec.CstFullS4. Import RX.Spec.CstFullS6. Import RX.Proofs.CstNsView. Import RX.Proofs.CstFullS6Main. Import RX.Proofs.NsRejDefs. Import RX.Proofs.NsRejBuild. Import RX.Proofs.CstFullRejSem. Import RX.Proofs.CstFullRejTrace. Import RX.Proofs.CstFullRejDoc. Import RX.Proofs.CstFullRejMain. Import RX.Proofs.CstFullNsRejMain.
 Theorem C06_ns_decide_full_s6_partial :
   forall (d : S6.doc) (opt : options) (cT : CstFull.doc bpieces) (tr : list Detector.lop),
@@ -356,4 +386,4 @@ Theorem C06_decide_full_s6 :
 Proof. exact decide_full_s6. Qed.
 Print Assumptions C06_decide_full_s6.
 
-End G8.
+End G9.
